@@ -47,7 +47,7 @@ def _strategy(draw):
         )
     )
     case["req"]["aggregates"] = ["postal_code", "unit"] if case["office"] == "G" else ["postal_code", "district", "unit"]
-    pattern = draw(st.sampled_from(["free", "free", "ties", "all_equal", "dominant", "negative"]))
+    pattern = draw(st.sampled_from(["free", "free", "ties", "all_equal", "dominant", "negative", "hamlets"]))
     rep = [u for u in case["units"] if u["status"] in (gen.R, gen.RB)]
     if pattern in ("ties", "all_equal"):
         chosen = rep if pattern == "all_equal" else [u for u in rep if draw(st.booleans())]
@@ -62,6 +62,17 @@ def _strategy(draw):
     elif pattern == "negative":
         for u in rep:
             u["feed"].update(rd=int(u["bd"] * 0.62), rg=int(u["bg"] * 0.62), ro=int(u["bo"] * 0.62))
+    elif pattern == "hamlets" and 9 <= len(rep) <= 26:
+        # two giants of almost equal size whose order decides the median, and many hamlets more than 1000x smaller:
+        # the median is the larger giant's swing only if every unit really carries its baseline as its weight
+        a, b = rep[0], rep[1]
+        a.update(bd=30000, bg=20000, bo=0)
+        a["feed"].update(rd=33000, rg=22000, ro=0)
+        b.update(bd=29820, bg=19880, bo=0)
+        b["feed"].update(rd=30416, rg=20278, ro=0)
+        for u in rep[2:]:
+            u.update(bd=6, bg=4, bo=0)
+            u["feed"].update(rd=5, rg=3, ro=0)
     case["pattern"] = pattern
     return case
 
